@@ -315,6 +315,25 @@ def run(p, report, tier):
                            detail=("infeasible: " + exc) if exc else f"unbound on the path where: {why}")
 
     # ---- R1.1 ------------------------------------------------------------
+    # index candidates are de-duplicated by check_indices: its result must be the array that is used
+    n_ci = 0
+    for f in p.all_functions():
+        if f.file.startswith("skactiveml/visualization") or "/tests/" in f.file:
+            continue
+        for st in ast.walk(f.node):
+            c = st.value if isinstance(st, (ast.Expr, ast.Assign)) and isinstance(getattr(st, "value", None), ast.Call) else None
+            if c is None or callname(c) != "check_indices":
+                continue
+            uq = next((k.value for k in c.keywords if k.arg == "unique"), c.args[3] if len(c.args) > 3 else None)
+            pure_check = uq is not None and isinstance(uq, ast.Constant) and uq.value in ("check_unique", False)
+            n_ci += 1
+            ok = isinstance(st, ast.Assign) or pure_check
+            report.add("R1.1", f.qual, f"result of {site_id(c, 60)} is used", f"{f.file}:{st.lineno}", ok,
+                       detail="bound to a name" if isinstance(st, ast.Assign) else (
+                           "pure uniqueness check" if pure_check else
+                           "the de-duplicated, sorted index array is discarded: duplicated candidate indices reach the "
+                           "strategies and can be selected twice"))
+    report.analysed["check_indices_sites"] = n_ci
     check_clip(p, report)
     for ci, f in pool_query_entities(p):
         check_validate_first(p, report, ci, f)
@@ -347,7 +366,11 @@ def run(p, report, tier):
                 "(must value-flow through marker-propagating operations; shape-only constructors and NaN-erasing "
                 "reductions do not carry), otherwise older picks lose their exclusion", floor=2)
     check_carried_exclusion(p, report, funcs, facts)
+    # a zero-mass mask is not undone by a later power / shift before the draw (shared with C02 R2.3)
+    from . import c02
+    c02.check_zero_mask_preserved(p, Report_proxy(report, {"R2.3": "R1.4m"}), funcs, facts)
     report.analysed["nan_marked_reductions"] = check_nan_reductions(p, report, funcs, "R1.3")
+    check_full_length_constants(p, report, funcs, facts, "R1.3")
 
     # ---- R1.3 ------------------------------------------------------------
     for f in funcs:
@@ -677,6 +700,59 @@ def check_nan_reductions(p, report, funcs, rule="R1.3"):
                                f"`{cn}` is not NaN-aware but its operand carries NaN markers (non-candidates / earlier "
                                "picks): the result is NaN whenever such an entry exists, e.g. for index candidates "
                                "that are a strict subset")
+    return n
+
+
+def check_full_length_constants(p, report, funcs, facts, rule="R1.3"):
+    """A constant-filled array sized by the number of samples in X (ones /
+    zeros / empty / full(non-NaN) of len(X)) never is the utilities handed to
+    simple_batch or returned: with index candidates it gives every
+    non-candidate a number (and sampling mass)."""
+    from . import c02
+    n = 0
+    for f in funcs:
+        ff = facts[id(f.node)]
+        # the validated X of this function
+        Xn = None
+        for st in ast.walk(f.node):
+            if isinstance(st, ast.Assign) and isinstance(st.value, ast.Call) and callname(st.value) == "_validate_data" \
+                    and isinstance(st.targets[0], ast.Tuple) and st.targets[0].elts and isinstance(st.targets[0].elts[0], ast.Name):
+                Xn = st.targets[0].elts[0].id
+        if Xn is None:
+            continue
+        _, seeds = c02.returned_utility_names(f.node, ff)
+        sinks = set(seeds)
+        for c in ast.walk(f.node):
+            if isinstance(c, ast.Call) and callname(c) == "simple_batch" and c.args and isinstance(c.args[0], ast.Name):
+                sinks.add(c.args[0].id)
+        for st in ast.walk(f.node):
+            if not (isinstance(st, ast.Assign) and len(st.targets) == 1 and isinstance(st.targets[0], ast.Name)
+                    and isinstance(st.value, ast.Call) and callname(st.value) in ("ones", "zeros", "empty", "full")):
+                continue
+            c = st.value
+            shape = c.args[0] if c.args else next((k.value for k in c.keywords if k.arg == "shape"), None)
+            full_len = (f"len({Xn})", f"{Xn}.shape[0]", f"({Xn}.shape[0],)", f"(len({Xn}),)")
+            cands_ = [shape] + ([shape.body, shape.orelse] if isinstance(shape, ast.IfExp) else []) if shape is not None else []
+            if not any(ast.unparse(x).replace(" ", "") in full_len for x in cands_):
+                continue
+            if callname(c) == "full":
+                fv = c.args[1] if len(c.args) > 1 else next((k.value for k in c.keywords if k.arg == "fill_value"), None)
+                if fv is not None and is_nan_expr(fv):
+                    continue
+                if fv is not None and isinstance(fv, ast.Constant) and isinstance(fv.value, bool):
+                    continue
+            U = st.targets[0].id
+            if U not in sinks:
+                continue
+            # a later NaN store into U (masking the non-candidates) repairs it
+            repaired = any(isinstance(m, ast.Assign) and is_nan_expr(m.value) and any(
+                isinstance(t, ast.Subscript) and base_name(t) == U for t in m.targets) and m.lineno > st.lineno
+                for m in ast.walk(f.node))
+            n += 1
+            report.add(rule, f.qual, f"utilities `{norm_stmt(st, 60)}` over all samples", f"{f.file}:{st.lineno}", repaired,
+                       detail="non-candidates are set to NaN afterwards" if repaired else
+                       "a constant-filled array over ALL samples of X is used as utilities: non-candidates (labeled samples, "
+                       "samples outside an index candidate list) carry a number and can be selected")
     return n
 
 
